@@ -241,7 +241,7 @@ def run_session(job):
         finally:
             signal.alarm(0)
     out = job['out']
-    K.write_trace(out + '.values.ndjson', {'kind': 'cfg', 'u': u, 'opts': opts, 'sid': job['sid']}, values)
+    K.write_trace(out + '.values.ndjson', {'kind': 'cfg', 'u': u, 'opts': __import__('drive_ops').full_opts(opts), 'sid': job['sid']}, values)
     threads = sorted({e['t'] for e in rec.events})
     regnames = [n for n, pd in job.get('programs', {}).items() if not pd.get('symbolic')]
     with open(out + '.proto.ndjson', 'w') as f:
@@ -452,7 +452,7 @@ def run_threaded_session(job):
             except (K.EncodeError, ValueError) as e:
                 skipped.append([eid, call['op'], f'encode: {e}'])
     out = job['out']
-    K.write_trace(out + '.values.ndjson', {'kind': 'cfg', 'u': u, 'opts': opts, 'sid': job['sid']}, values)
+    K.write_trace(out + '.values.ndjson', {'kind': 'cfg', 'u': u, 'opts': __import__('drive_ops').full_opts(opts), 'sid': job['sid']}, values)
     regnames = [n for n, pd in job.get('programs', {}).items() if not pd.get('symbolic')]
     with open(out + '.proto.ndjson', 'w') as f:
         f.write(json.dumps({'kind': 'hdr', 'threads': len(names), 'registered': regnames, 'sid': job['sid'],
